@@ -1,6 +1,9 @@
 """Fail-closed translator: python AST of the mutating Eups methods -> Coq term of Model/Guards.v (C15).
 
-Regenerates coq/Generated/Guards.v from <repo>/python/eups/Eups.py on every run.  Anything outside the
+Regenerates coq/Generated/Guards.v from <repo>/python/eups/Eups.py on every run, together with the command-line
+front end of the same operations: DeclareCmd / UndeclareCmd / RemoveCmd.execute of cmd.py and the wrappers
+declare / undeclare of app.py, whose calls of the Eups methods become calls of the translated methods (the -n option
+reaches Eups.noaction through EupsCmd.createEups: checked textually, fail-closed).  Anything outside the
 grammar it understands raises TranslationError (the check then fails closed); any call it cannot classify
 becomes a write site "unknown".  The classification tables below are part of the trusted base and are
 printed into the evidence; the dynamic spy of harness/c15.py cross-checks them against the running code.
@@ -11,6 +14,14 @@ import os
 
 ENTRY = ["declare", "undeclare", "unassignTag", "remove"]
 METHODS = ENTRY + ["assignTag", "_remove"]         # translated and callable through SCall
+# the front end: (generated name, file, class or None, function)
+FRONT = [("app_declare", "app.py", None, "declare"), ("app_undeclare", "app.py", None, "undeclare"),
+         ("cmd_declare", "cmd.py", "DeclareCmd", "execute"), ("cmd_undeclare", "cmd.py", "UndeclareCmd", "execute"),
+         ("cmd_remove", "cmd.py", "RemoveCmd", "execute")]
+COMMAND_ENTRY = ["cmd_declare", "cmd_undeclare", "cmd_remove"]
+# how the front end names an Eups instance, and the module-level wrappers it calls
+EUPS_RECEIVERS = {"myeups", "eupsenv"}
+FRONT_CALLS = {"eups.declare": "app_declare", "eups.undeclare": "app_undeclare"}
 
 # calls that change database records, cache files, or product directories
 DB_WRITE_ATTRS = {"declare", "undeclare", "assignTag", "unassignTag"}
@@ -46,6 +57,12 @@ PURE_FUNCS = {
     "self.isTag", "self.isSetup", "self.uses", "self._databaseFor", "self._userStackCache",
     "self.tags.getTag", "self.tags.owners.get", "hooks.config.Eups.defaultProduct.get",
 }
+# the same for the front end (cmd.py / app.py); myeups / eupsenv is the Eups instance
+FRONT_PURE_FUNCS = {
+    "Eups", "self.createEups", "self.err", "myeups.findProducts", "myeups.tags.getTag", "myeups.isReservedTag",
+    "utils.guessProduct", "os.path.isdir", "os.path.exists", "os.path.split", "os.path.join", "os.path.abspath",
+    "re.search", "print", "len", "open_ro",
+}
 # attribute calls considered pure whatever the receiver (string / list / dict / value-object methods)
 PURE_ATTRS = {"join", "startswith", "endswith", "split", "get", "append", "items", "keys", "values", "format",
               "lower", "upper", "strip", "read", "readlines", "fileno", "stackRoot", "getTable", "dependencies",
@@ -66,6 +83,21 @@ def dotted(node):
     return None
 
 
+def find_function(tree, path, cls, name):
+    """the one definition of cls.name (or of the module-level function name) in a parsed file"""
+    if cls is None:
+        scope = tree.body
+    else:
+        cs = [n for n in tree.body if isinstance(n, ast.ClassDef) and n.name == cls]
+        if len(cs) != 1:
+            raise TranslationError("%s: class %s not found exactly once" % (path, cls))
+        scope = cs[0].body
+    fs = [n for n in scope if isinstance(n, ast.FunctionDef) and n.name == name]
+    if len(fs) != 1:
+        raise TranslationError("%s: %s%s not defined exactly once" % (path, cls + "." if cls else "", name))
+    return fs[0]
+
+
 class Translator:
     def __init__(self, src_path):
         self.src_path = src_path
@@ -76,18 +108,36 @@ class Translator:
         self.unknown = []
         self.local_funcs = {}
         self.extra = []           # nested helper functions: (qualified name, body term)
-        cls = [n for n in self.tree.body if isinstance(n, ast.ClassDef) and n.name == "Eups"]
-        if len(cls) != 1:
-            raise TranslationError("class Eups not found exactly once")
+        self.front = False        # translating the front end (cmd.py / app.py)?
+        self.front_index = {}     # generated name of a front-end unit -> index in the program
         self.methods = {}
-        for n in cls[0].body:
-            if isinstance(n, ast.FunctionDef) and n.name in METHODS:
-                if n.name in self.methods:
-                    raise TranslationError("method %s defined twice" % n.name)
-                self.methods[n.name] = n
-        missing = [m for m in METHODS if m not in self.methods]
-        if missing:
-            raise TranslationError("methods not found: %s" % missing)
+        for m in METHODS:
+            self.methods[m] = find_function(self.tree, src_path, "Eups", m)
+        # the front end
+        d = os.path.dirname(src_path)
+        self.front_defs = []
+        trees = {}
+        for gen, fname, cls, fn in FRONT:
+            p = os.path.join(d, fname)
+            if p not in trees:
+                trees[p] = ast.parse(open(p).read())
+            self.front_defs.append((gen, p, find_function(trees[p], p, cls, fn)))
+        self.check_noaction_plumbing(trees[os.path.join(d, "cmd.py")], os.path.join(d, "cmd.py"))
+
+    def check_noaction_plumbing(self, tree, path):
+        """-n sets opts.noaction, and createEups hands it to the Eups constructor (else fail closed)"""
+        create = find_function(tree, path, "EupsCmd", "createEups")
+        ctor = [c for c in ast.walk(create) if isinstance(c, ast.Call) and dotted(c.func) == "eups.Eups"]
+        if len(ctor) != 1 or not any(k.arg == "noaction" and ast.unparse(k.value) == "opts.noaction"
+                                     for k in ctor[0].keywords):
+            raise TranslationError("%s: createEups does not build eups.Eups(..., noaction=opts.noaction)" % path)
+        if self.noaction_assigned(create):
+            raise TranslationError("%s: createEups assigns noaction" % path)
+        opt = [c for c in ast.walk(find_function(tree, path, "EupsCmd", "addOptions")) if isinstance(c, ast.Call) and
+               any(isinstance(a, ast.Constant) and a.value == "-n" for a in c.args)]
+        if len(opt) != 1 or not any(k.arg == "dest" and isinstance(k.value, ast.Constant) and k.value.value ==
+                                    "noaction" for k in opt[0].keywords):
+            raise TranslationError("%s: the -n option does not set opts.noaction" % path)
 
     # ---- expressions
     def calls_in(self, node):
@@ -138,6 +188,8 @@ class Translator:
         if (method, text) in NOT_STACK:
             self.ignored.append((method, line, text, NOT_STACK[(method, text)]))
             return "SMayRaise"
+        if self.front:
+            return self.classify_front(call, method, text, d, line)
         # translated methods
         if d is not None and d.startswith("self.") and d[5:] in METHODS:
             return "(SCall %d)" % METHODS.index(d[5:])
@@ -168,6 +220,30 @@ class Translator:
         if d in PURE_FUNCS:
             return "SMayRaise"
         if isinstance(func, ast.Attribute) and func.attr in PURE_ATTRS:
+            return "SMayRaise"
+        self.unknown.append((method, line, text))
+        return self.site(method, line, text, "unknown callee (fail-closed)")
+
+    def classify_front(self, call, method, text, d, line):
+        """calls of the front end: the Eups methods and the app wrappers are calls of translated code; a method of
+        the Eups instance that is not translated is a write unless listed as pure"""
+        func = call.func
+        if d in FRONT_CALLS:
+            return "(SCall %d)" % self.front_index[FRONT_CALLS[d]]
+        if isinstance(func, ast.Attribute) and dotted(func.value) in EUPS_RECEIVERS and func.attr in METHODS:
+            return "(SCall %d)" % METHODS.index(func.attr)
+        if d == "open":
+            mode = "r" if len(call.args) <= 1 and not any(k.arg == "mode" for k in call.keywords) else None
+            if len(call.args) > 1 and isinstance(call.args[1], ast.Constant):
+                mode = call.args[1].value
+            if isinstance(mode, str) and not any(c in mode for c in "wax+"):
+                return "SMayRaise"
+            return self.site(method, line, text, "file opened for writing")
+        if d in WRITE_FUNCS:
+            return self.site(method, line, text, "file system")
+        if d in FRONT_PURE_FUNCS:
+            return "SMayRaise"
+        if isinstance(func, ast.Attribute) and func.attr in PURE_ATTRS and dotted(func.value) not in EUPS_RECEIVERS:
             return "SMayRaise"
         self.unknown.append((method, line, text))
         return self.site(method, line, text, "unknown callee (fail-closed)")
@@ -262,6 +338,23 @@ class Translator:
             bodies[name] = self.stmts(fn.body, name)
         return bodies
 
+    def translate_front(self, first_index):
+        """the front-end units, numbered from first_index on (after the methods and their nested helpers)"""
+        self.front = True
+        self.front_index = {gen: first_index + i for i, (gen, _, _) in enumerate(self.front_defs)}
+        out = []
+        for gen, path, fn in self.front_defs:
+            if self.noaction_assigned(fn):
+                raise TranslationError("%s assigns noaction" % gen)
+            self.local_funcs = {}
+            n_extra = len(self.extra)
+            self.src_path = path
+            out.append((gen, self.stmts(fn.body, gen)))
+            if len(self.extra) != n_extra:
+                raise TranslationError("%s defines a nested function" % gen)
+        self.front = False
+        return out
+
 
 # ---- python mirror of Model/Guards.v safe / never_normal on the *text* is avoided: the table of methods that
 # are write-free under noaction is computed by a tiny evaluator over the same s-expression text.
@@ -283,52 +376,53 @@ def parse_term(txt):
     return rd()
 
 
-def never_normal(t):
+def never_normal(t, na=True):
     if t in ("SReturn", "SRaise", "SBreak", "SContinue"):
         return True
     if isinstance(t, list):
         if t[0] == "SSeq":
-            return never_normal(t[1]) or never_normal(t[2])
+            return never_normal(t[1], na) or never_normal(t[2], na)
         if t[0] == "SIf":
             if t[1] == "CNoaction":
-                return never_normal(t[2])
+                return never_normal(t[2] if na else t[3], na)
             if t[1] == "CNotNoaction":
-                return never_normal(t[3])
-            return never_normal(t[2]) and never_normal(t[3])
+                return never_normal(t[3] if na else t[2], na)
+            return never_normal(t[2], na) and never_normal(t[3], na)
     return False
 
 
-def safe(ok, t):
+def safe(ok, t, na=True):
     if isinstance(t, str):
         return True
     h = t[0]
     if h == "SWrite":
         return False
     if h == "SSeq":
-        return safe(ok, t[1]) and (never_normal(t[1]) or safe(ok, t[2]))
+        return safe(ok, t[1], na) and (never_normal(t[1], na) or safe(ok, t[2], na))
     if h == "SIf":
         if t[1] == "CNoaction":
-            return safe(ok, t[2])
+            return safe(ok, t[2] if na else t[3], na)
         if t[1] == "CNotNoaction":
-            return safe(ok, t[3])
-        return safe(ok, t[2]) and safe(ok, t[3])
+            return safe(ok, t[3] if na else t[2], na)
+        return safe(ok, t[2], na) and safe(ok, t[3], na)
     if h == "SLoop":
-        return safe(ok, t[1]) and safe(ok, t[2])
+        return safe(ok, t[1], na) and safe(ok, t[2], na)
     if h == "STry":
-        return safe(ok, t[1]) and safe(ok, t[2]) and safe(ok, t[3])
+        return safe(ok, t[1], na) and safe(ok, t[2], na) and safe(ok, t[3], na)
     if h == "SCall":
         return ok[int(t[1])]
     raise TranslationError("bad term head %r" % (h,))
 
 
-def ok_table(body_terms):
+def ok_table(body_terms, na=True):
+    """the largest table of methods that the analyser finds write-free with self.noaction = na"""
     terms = [parse_term(b) for b in body_terms]
     ok = [True] * len(terms)
     changed = True
     while changed:
         changed = False
         for i, t in enumerate(terms):
-            if ok[i] and not safe(ok, t):
+            if ok[i] and not safe(ok, t, na):
                 ok[i] = False
                 changed = True
     return ok
@@ -339,7 +433,11 @@ def generate(repo, out_path):
     bodies = tr.translate()
     names = [("helper" + m) if m.startswith("_") else m for m in METHODS] + [q.replace(".", "_") for q, _ in tr.extra]
     terms = [bodies[m] for m in METHODS] + [b for _, b in tr.extra]
+    front = tr.translate_front(len(terms))
+    names += [g for g, _ in front]
+    terms += [b for _, b in front]
     ok = ok_table(terms)
+    ok_wet = ok_table(terms, na=False)
     lines = ["(* GENERATED by harness/translate_guards.py from python/eups/Eups.py - do not edit *)",
              "From Coq Require Import List.", "Import ListNotations.",
              "From Eupsv Require Import Model.Guards.", ""]
@@ -351,7 +449,11 @@ def generate(repo, out_path):
         lines.append("")
     lines.append("Definition prog : list stmt := [%s]." % "; ".join("body_" + n for n in names))
     lines.append("Definition oks : list bool := [%s]." % "; ".join("true" if b else "false" for b in ok))
+    lines.append("(* the same table computed with self.noaction = False (used only to show the analysis is not vacuous) *)")
+    lines.append("Definition oks_wet : list bool := [%s]." % "; ".join("true" if b else "false" for b in ok_wet))
     lines.append("Definition entry_points : list nat := [%s]." % "; ".join("f_" + m for m in ENTRY))
+    lines.append("(* the command-line front end: DeclareCmd / UndeclareCmd / RemoveCmd.execute of cmd.py *)")
+    lines.append("Definition command_entry_points : list nat := [%s]." % "; ".join("f_" + m for m in COMMAND_ENTRY))
     lines.append("Definition n_sites : nat := %d." % len(tr.sites))
     text = "\n".join(lines) + "\n"
     old = open(out_path).read() if os.path.exists(out_path) else None
@@ -362,7 +464,8 @@ def generate(repo, out_path):
             f.write(text)
         os.replace(tmp, out_path)
     info = {
-        "methods": METHODS, "entry": ENTRY, "ok_under_noaction": dict(zip(names, ok)),
+        "methods": METHODS, "entry": ENTRY, "front_end": [list(f) for f in FRONT], "command_entry": COMMAND_ENTRY,
+        "ok_under_noaction": dict(zip(names, ok)), "ok_without_noaction": dict(zip(names, ok_wet)),
         "sites": [{"id": s[0], "method": s[1], "line": s[2], "call": s[3], "kind": s[4]} for s in tr.sites],
         "not_stack_records": [{"method": i[0], "line": i[1], "call": i[2], "reason": i[3]} for i in tr.ignored],
         "unknown_callees": [{"method": u[0], "line": u[1], "call": u[2]} for u in tr.unknown],
